@@ -120,7 +120,7 @@ func runC10(cx *Ctx, r *Report) {
 				strings.Contains(pay.ev.Args[2].LooseString(), "abi.ABI.Unpack(") && strings.Contains(pay.ev.Args[2].LooseString(), ".Data)#0[1]")
 			r.check(ok, "provenance", name, mint.ev.Pos(cx), "minted coin = (min unit of the token registered for the emitting contract, amount decoded from that log's data), paid to the log's recipient", "hook mints "+c+" and pays "+lastArg(pay.ev)+" to "+pay.ev.Args[2].LooseString())
 			fs := mint.w.FactsAt(mint.ev.Fr, mint.ev.Site)
-			_, ok1 := hasFact(fs, true, "getTokenByContract(keeper, receipt.Logs[", ": err==nil")
+			_, ok1 := hasFact(fs, true, "getTokenByContract(keeper, receipt.Logs[", " : err==nil")
 			_, ok2 := hasFact(fs, false, ".Name != \"SwapToNative\"")
 			r.check(ok1 && ok2, "hook-guards", name, mint.ev.Pos(cx), "the mint is dominated by: event name is SwapToNative and the emitting contract resolves to a registered token", "the hook's mint is not dominated by the SwapToNative / registered-contract guards")
 		}
